@@ -168,6 +168,41 @@ theorem C20_expect_nesting (nums : Exp.Nums) (P B : List Nat) :
   refine ⟨fun h => ?_, fun h => ?_, fun h => ?_⟩ <;>
     simp [Exp.step, Exp.passExit, Exp.wrX, Exp.findAndTake_eq, h]
 
+/-- **The options that hide messages only filter the channel.**  For every event list (well-formed or not), under `-w`
+(warnings hidden) and/or `+G` ("unknown instruction" hidden) the channel is the channel of the run without options with the
+hidden numbers removed: which expectations are consumed, which are reported as missing and the state of the machine do not
+depend on the options - a hidden message still counts as having occurred. -/
+theorem C20_expect_hiding_options (h : Exp.Hide) (nums : Exp.Nums) (evs : List Exp.Ev) :
+    Exp.runPassH h nums evs = (Exp.runPass nums evs).filter (fun m => !h.hides (m.num nums)) :=
+  Exp.runPassH_eq h nums evs
+
+/-- `C20_expect_exact` under the options: the reports of missing messages are the same multiset, the reported ones lose the
+hidden numbers and nothing else. -/
+theorem C20_expect_exact_hidden (h : Exp.Hide) (nums : Exp.Nums) (A O : List Nat) (hE : nums.expectedError ∉ A)
+    (hh : h.hides nums.expectedError = false) :
+    ∃ rep miss : List Nat,
+      Exp.runEvsH h nums Exp.init (Exp.block A O) =
+        (Exp.init, (rep.filter (fun n => !h.hides n)).map Exp.Msg.msg ++ miss.map Exp.Msg.missing) ∧
+      rep.Sublist O ∧
+      (∀ n, rep.count n = reportedCount A O n) ∧
+      (∀ n, miss.count n = missingCount A O n) := by
+  obtain ⟨rep, miss, hrun, hsub, hr, hm, _⟩ := C20_expect_exact nums A O hE
+  refine ⟨rep, miss, ?_, hsub, hr, hm⟩
+  rw [Exp.runEvsH_eq, hrun]
+  simp only [Exp.shown, List.filter_append, List.filter_map]
+  have hmiss : List.filter ((fun m => !h.hides (Exp.Msg.num nums m)) ∘ Exp.Msg.missing) miss = miss := by
+    apply List.filter_eq_self.mpr
+    intro m _
+    simp [Exp.Msg.num, hh]
+  rw [hmiss]
+  rfl
+
+/-- non-vacuity / the shape a reordering of `WrXErrorPos` breaks: `expect 100` / a statement raising warning 100 /
+`endexpect` under `-w` reports nothing (the hidden warning consumed its expectation) -/
+example : Exp.runPassH ⟨true, false, 1200⟩ ⟨2130, 2140, 2150, 2160⟩ (Exp.block [100] [100]) = [] ∧
+    Exp.runPassH ⟨false, true, 1200⟩ ⟨2130, 2140, 2150, 2160⟩ (Exp.block [1200] [1200]) = [] ∧
+    Exp.runPassH ⟨true, true, 1200⟩ ⟨2130, 2140, 2150, 2160⟩ (Exp.block [100] [1200, 30]) = [.missing 100] := by decide
+
 /-! ## regenerated constants -/
 
 /-- the catalogue texts `GetErrorPos`/`WrErrorString` use are the ones the spec spells out -/
